@@ -35,36 +35,34 @@ Lemma last_is_w_snoc secs m : last_is_w (secs ++ [m]) = mode_eqb m W.
 Proof. unfold last_is_w. rewrite rev_app_distr. simpl. destruct m; reflexivity. Qed.
 
 (* what the automaton state means *)
-Definition inv09 (hm : option mode) (q : q09) (t : list event) : Prop :=
+Definition inv09 (pat : list mode -> bool) (q : q09) (t : list event) : Prop :=
   let '(secs, open, seen) := q in
-  secs = acquires t /\ allowed hm secs = true /\
+  secs = acquires t /\ (secs = [] \/ pat secs = true) /\
   (open = true -> held_after t <> None /\ (held_after t = Some W -> last_is_w secs = true /\ seen = reread_after t)) /\
   (open = false -> held_after t = None).
 
-Lemma steps09_state hm t : forall q, steps (step09 hm) q09_0 t = Some q -> inv09 hm q t.
+Lemma steps09_state pat t : forall q, steps (step09 pat) q09_0 t = Some q -> inv09 pat q t.
 Proof.
   induction t as [|e t IH] using rev_ind; intros q H.
-  - simpl in H. inversion H; subst. cbn. repeat split; auto; discriminate.
-  - rewrite steps_snoc in H. destruct (steps (step09 hm) q09_0 t) as [[[secs op] seen]|] eqn:E; [|discriminate].
+  - simpl in H. inversion H; subst. cbn. split; [reflexivity|]. split; [left; reflexivity|]. split; [discriminate|reflexivity].
+  - rewrite steps_snoc in H. destruct (steps (step09 pat) q09_0 t) as [[[secs op] seen]|] eqn:E; [|discriminate].
     specialize (IH _ eq_refl). destruct IH as [Hs [Hal [Hop Hcl]]].
     destruct q as [[secs' op'] seen']. unfold inv09.
     rewrite acquires_snoc, held_after_snoc, reread_after_snoc.
     destruct e; cbn [step09] in H;
       try (inversion H; subst secs' op' seen'; rewrite app_nil_r; split; [exact Hs|]; split; [exact Hal|]; split; [exact Hop|exact Hcl]).
     + (* EAcquire *)
-      destruct op; [discriminate|]. destruct (allowed hm (secs ++ [m])) eqn:Ea; [|discriminate].
+      destruct op; [discriminate|]. destruct (pat (secs ++ [m])) eqn:Ea; [|discriminate].
       inversion H; subst secs' op' seen'. rewrite <- Hs.
-      split; [reflexivity|]. split; [exact Ea|]. split; [|discriminate].
+      split; [reflexivity|]. split; [right; exact Ea|]. split; [|discriminate].
       intros _. split; [discriminate|]. intro Hw. inversion Hw; subst m. split; [apply last_is_w_snoc|reflexivity].
     + (* ERelease *)
       inversion H; subst secs' op' seen'. rewrite app_nil_r.
       split; [exact Hs|]. split; [exact Hal|]. split; [discriminate|reflexivity].
     + (* EStorage *)
-      rewrite app_nil_r.
-      destruct (op && last_is_w secs) eqn:Eo.
-      * apply andb_true_iff in Eo. destruct Eo as [-> Hl]. destruct (Hop eq_refl) as [Hne Hw].
-        assert (Hgen : forall sn, (held_after t = Some W -> sn = match k with Discover => true | _ => reread_after t end) ->
-                  inv09 hm (secs, true, sn) t -> True) by auto.
+      rewrite app_nil_r. destruct op; cbn [negb] in H; [|discriminate].
+      destruct (true && last_is_w secs) eqn:Eo.
+      * apply andb_true_iff in Eo. destruct Eo as [_ Hl]. destruct (Hop eq_refl) as [Hne Hw].
         destruct k; try (destruct (access_eqb _ AWrite && negb seen); [discriminate|]);
           inversion H; subst secs' op' seen';
           (split; [exact Hs|]; split; [exact Hal|]; split; [|discriminate]; intros _; split; [exact Hne|];
@@ -72,19 +70,24 @@ Proof.
       * inversion H; subst secs' op' seen'.
         split; [exact Hs|]. split; [exact Hal|]. split; [|exact Hcl].
         intro Ho. destruct (Hop Ho) as [Hne Hw]. split; [exact Hne|].
-        intro Hh. destruct (Hw Hh) as [Hl _]. rewrite Ho, Hl in Eo. discriminate.
+        intro Hh. destruct (Hw Hh) as [Hl _]. rewrite Hl in Eo. discriminate.
 Qed.
 
-Theorem steps09_sections_ok hm t q : steps (step09 hm) q09_0 t = Some q -> sections_ok hm t.
+Theorem steps09_sections_pat pat t q : pat [] = true -> steps (step09 pat) q09_0 t = Some q -> sections_pat pat t.
 Proof.
-  intro H. split.
-  - destruct q as [[secs op] seen]. destruct (steps09_state _ _ _ H) as [Hs [Hal _]]. rewrite <- Hs. exact Hal.
+  intros Hnil H. split; [|split].
+  - destruct q as [[secs op] seen]. destruct (steps09_state _ _ _ H) as [Hs [[He|Hal] _]]; rewrite <- Hs; [rewrite He|]; auto.
+  - intros pre k post -> Hheld.
+    destruct (steps_prefix _ _ _ _ _ H) as [[[secs op] seen] [H1 H2]].
+    destruct (steps09_state _ _ _ H1) as [Hs [Hal [Hop Hcl]]].
+    rewrite steps_cons in H2. cbn [step09] in H2.
+    destruct op; [destruct (Hop eq_refl) as [Hne _]; contradiction|]. cbn in H2. discriminate.
   - intros pre k post -> Hacc Hheld.
     destruct (steps_prefix _ _ _ _ _ H) as [[[secs op] seen] [H1 H2]].
     destruct (steps09_state _ _ _ H1) as [Hs [Hal [Hop Hcl]]].
     rewrite steps_cons in H2. cbn [step09] in H2.
     destruct op; [|rewrite (Hcl eq_refl) in Hheld; discriminate].
-    destruct (Hop eq_refl) as [_ Hw]. destruct (Hw Hheld) as [Hl Hseen]. rewrite Hl in H2. cbn [andb] in H2.
+    destruct (Hop eq_refl) as [_ Hw]. destruct (Hw Hheld) as [Hl Hseen]. rewrite Hl in H2. cbn [andb negb] in H2.
     rewrite <- Hseen. destruct seen; [reflexivity|].
     destruct k; cbn in Hacc; try discriminate; cbn in H2; discriminate.
 Qed.
@@ -92,13 +95,33 @@ Qed.
 Theorem check09_sound hm s : check09 hm s = true -> forall t, trace_of s t -> sections_ok hm t.
 Proof.
   intros Hc t Ht. destruct (check_from_sound _ _ _ q09_eqb_eq _ _ Hc t Ht) as [q Hq].
-  eapply steps09_sections_ok; eauto.
+  eapply steps09_sections_pat; eauto.
+Qed.
+
+Theorem check09h_sound hm s : check09h hm s = true -> forall t, trace_of s t -> one_section_ok hm t.
+Proof.
+  intros Hc t Ht. destruct (check_from_sound _ _ _ q09_eqb_eq _ _ Hc t Ht) as [q Hq].
+  eapply steps09_sections_pat; eauto.
 Qed.
 
 (* the regenerated requests (gate + handler) have the section shape the concurrency model assumes *)
 Lemma Gen_sections_ok :
   forallb (fun p => check09 (mode_of_method (fst p)) (snd p)) Skeleton.requests = true.
 Proof. vm_compute. reflexivity. Qed.
+
+(* every handler on its own has ONE critical section that contains all its storage events -- the hypothesis of
+   C09_serializable, checked on the source as it is today (a handler that checks under one lock and acts under
+   another, e.g. an existence test under "r" and the creation under "w", is rejected here) *)
+Lemma Gen_handlers_one_section :
+  forallb (fun p => check09h (mode_of_method (fst p)) (snd p)) Skeleton.handlers = true.
+Proof. vm_compute. reflexivity. Qed.
+
+Theorem handlers_one_section :
+  forall name s, In (name, s) Skeleton.handlers -> forall t, trace_of s t -> one_section_ok (mode_of_method name) t.
+Proof.
+  intros name s Hin. pose proof Gen_handlers_one_section as H. rewrite forallb_forall in H.
+  specialize (H _ Hin). simpl in H. apply check09h_sound. exact H.
+Qed.
 
 Theorem requests_sections_ok :
   forall name s, In (name, s) Skeleton.requests -> forall t, trace_of s t -> sections_ok (mode_of_method name) t.
@@ -122,3 +145,8 @@ Proof. vm_compute. reflexivity. Qed.
 Example check09_rejects_wrong_mode : check09 (Some W) (SWith R (SSeq (SStorage Discover) (SStorage GetAll))) = true /\
                                      check09 (Some R) (SSeq (SWith R SSkip) (SSeq (SWith R SSkip) (SWith W SSkip))) = false.
 Proof. split; vm_compute; reflexivity. Qed.
+Example check09h_rejects_check_then_act :
+  check09h (Some W) (SSeq (SWith R (SStorage Discover)) (SWith W (SSeq (SStorage Discover) (SStorage CreateCollection)))) = false /\
+  check09h (Some W) (SWith W (SSeq (SStorage Discover) (SStorage CreateCollection))) = true /\
+  check09h (Some W) (SSeq (SStorage Discover) (SWith W (SStorage Discover))) = false.
+Proof. repeat split; vm_compute; reflexivity. Qed.
